@@ -355,6 +355,19 @@ func c19HostileInputs() [][]byte {
 			}
 		}
 	}
+	// arithmetic boundaries of the declared length: around the limit, around 2^31, and the values for which
+	// header+length wraps in 32 bits
+	for _, decl := range []uint32{frame.MaxPayloadLength - 1, frame.MaxPayloadLength, frame.MaxPayloadLength + 1, frame.MaxPayloadLength + 4, frame.MaxPayloadLength + 5,
+		0x7FFFFFFB, 0x7FFFFFFC, 0x7FFFFFFE, 0x80000001, 0xFFFFFFF0, 0xFFFFFFFA, 0xFFFFFFFB, 0xFFFFFFFC, 0xFFFFFFFD, 0xFFFFFFFE} {
+		if decl <= frame.MaxPayloadLength && decl > 128*1024 {
+			continue // a legitimate large item: covered by the all-sizes family, too large to enumerate cuts of
+		}
+		for _, tail := range []int{0, 1, 3} {
+			in := []byte{byte(decl >> 24), byte(decl >> 16), byte(decl >> 8), byte(decl)}
+			in = append(in, payloadBytes(int(byte(decl)), tail)...)
+			out = append(out, in)
+		}
+	}
 	// shorter than a header
 	out = append(out, []byte{}, []byte{0xFF}, []byte{0xFF, 0xFF, 0xFF})
 	return out
